@@ -226,32 +226,32 @@ def observe_compile(W_, rec, ctxhist):
         rec.violation(f"{PROP}:function arguments are not the network's current variables", dict(ctx, names=list(F.name_in()), expected=sorted(args)))
         return
     out = F.call(args)
-    byobj_now = {id(o): k for k, o in objmap_now.items() if k != "#rev"}
+    # every element's result equals the element's own CURRENT next state (the most recent step),
+    # evaluated by the harness (independent of whether the dynamics themselves are right: C01)
+    from vf import compilecases as CC
+
+    table = {}
+    for eid, L in lay.items():
+        for grp in ("states", "actions", "disturbances"):
+            for v, n in L[grp]:
+                table[f"{v}_{names[eid]}"] = vals_now[eid][v]
+    try:
+        own = CC.OwnSuccessors(M, W_.net, W_.st, table)
+    except Exception as e:
+        rec.count("own_evaluation_failed")
+        return
+    if own.unknown_symbols:
+        rec.violation(f"{PROP}:a function was returned although a current next state still refers to symbols that are not "
+                      f"current variables of the network", dict(ctx, symbols=own.unknown_symbols[:5]))
+        return
     for el in W_.elements():
         if not el._states:
             continue
-        info = W_.stepinfo[id(el)]
-        d_then, om_then = info["desc"], info["objmap"]
-        _, vals_then = g.values(d_then, "interior", allow_inf=False)
-        for k, o in om_then.items():
-            if k == "#rev" or k.startswith("n"):
-                continue
-            if id(o) in byobj_now and byobj_now[id(o)] in vals_now and k in vals_then:
-                vals_then[k] = vals_now[byobj_now[id(o)]]
-        eid_then = om_then["#rev"][id(el)]
-        try:
-            ref = R.ref_step(d_then, vals_then, info.get("pars") or PARS, info.get("opts"))
-        except (R.Singular, R.Inadmissible):
-            continue
-        for v, e_ in ref.next[eid_then].items():
+        for v, exp in own.by_object.get(id(el), {}).items():
             got_ = np.asarray(out[f"{v}_{el.name}+"], dtype=float).ravel().tolist()
-            es = e_ if isinstance(e_, list) else [e_]
-            ms = ref.mag[eid_then][v]
-            ms = ms if isinstance(ms, list) else [ms]
-            for i, (x, y, m) in enumerate(zip(got_, es, ms)):
+            for i, (x, y) in enumerate(zip(got_, exp)):
                 rec.count("values_compared")
-                alt = ref.vdrop_alt.get(eid_then) if (v == "v" and i == len(es) - 1) else None
-                if not (abs(x - y) <= 1e-9 * (1 + m)) and not (alt is not None and abs(x - alt) <= 1e-9 * (1 + m)):
+                if not (x == y or abs(x - y) <= 1e-9 * (1 + abs(x) + abs(y)) or (math.isnan(x) and math.isnan(y))):
                     rec.violation(f"{PROP}:the function does not reflect the most recent step of an element ({type(el).__name__}.{v}+)",
                                   dict(ctx, element=el.name, var=v, index=i, observed=x, expected=y))
                     return
